@@ -167,7 +167,7 @@ func c18GenCase(r *vc.Rand, idx int, prefix string, onlyCare bool) *atCase {
 		}
 		st = atStmt{Kind: "delete", Table: t.Name, SQL: sql, Args: wargs, Feat: map[string]string{"stmt": "delete", "where": strings.Join(sortedKeys(ops), "+"), "limit": lim}}
 	case kind < 8: // INSERT single/multi rows, literals/params/NULL
-		st = atGenInsert(r, t, atStmtOpts{params: params, shuffleCols: r.Bool()}, 1+r.Intn(4), &seq)
+		st = atGenInsert(r, t, atStmtOpts{params: params, shuffleCols: r.Bool(), mixedArgs: r.Intn(3) == 0}, 1+r.Intn(4), &seq)
 		st.Feat["where"] = ""
 	case kind < 9:
 		if r.Intn(3) == 0 {
